@@ -54,6 +54,9 @@ def main():
             "killed_by": sorted(c for c, r in res.items() if r["result"] == "KILLED"),
             "survived": sorted(c for c, r in res.items() if r["result"] == "SURVIVED"),
         }
+        np = os.path.join(d, "note.txt")
+        if os.path.exists(np):
+            meta["strengthening_note"] = open(np).read().strip()
         if rebased:
             meta["rebase_note"] = ("patch.orig.diff is the sub-agent's patch against the tree it was given; a later fix: "
                                    "commit rewrote the same lines, patch.diff is the same change re-applied to the "
